@@ -42,6 +42,9 @@ CHECKS = {
  "C11": dict(tech="runtime monitoring: metamorphic pairs (document, rewritten document) with byte-equality oracle",
    text="Each history is compared with ~10 rewritten variants (empty-element spelling, expand_empty_elements, reader kinds and buffer sizes down to 1, quoting/blank/character-reference syntax, attribute values, text/CDATA swaps and splits, comments, PIs, XML declaration, DOCTYPE); sorted and unsorted renderings must be byte-identical.",
    note="Whitespace-only text is only rewritten to whitespace-only text; the generator re-checks that a rewrite leaves the reference schema unchanged.", ref="4/C11"),
+ "C12": dict(tech="runtime monitoring: the real binary under an input/option/fault matrix; in-process library rendering as oracle; before/after snapshots and strace syscall log for file effects",
+   text="1.6k (quick) / 16k (thorough) runs of the binary built from the working tree: exit status, stdout, stderr, output file bytes compared with header + library rendering for independently mapped options; on input faults the output path must be untouched, observed by inode/mtime/bytes snapshots and (every third run) by strace -e trace=%file,write showing no syscall with write intent on that path.",
+   note="env_logger feature not built; EPIPE and permission faults out of scope (root sandbox).", ref="4/C12"),
 }
 
 NOT_YET = {}
